@@ -205,8 +205,13 @@ Section CircuitHeap.
   (* gate object: class code, positional arguments, keyword arguments (name code, value), trainable *)
   Record gst := mkG { g_cls : nat; g_args : list Z; g_kw : list (nat * Z); g_trainable : bool }.
   Variable required : nat -> bool.              (* REQUIRED_FIELDS_INIT_KWARGS *)
-  Definition rawd := (nat * list Z * list (nat * Z))%type.
-  Definition graw (g : gst) : rawd := (g_cls g, g_args g, filter (fun kv => required (fst kv)) (g_kw g)).
+  Variable tdefault : nat -> bool.              (* default of the class's `trainable` argument (False for Align) *)
+  (* exported entry: class, args, required kwargs, and `trainable` iff it differs from the class default
+     (Gate.raw after the repair "Gate.raw dropped trainable") *)
+  Definition rawd := (nat * list Z * list (nat * Z) * option bool)%type.
+  Definition graw (g : gst) : rawd :=
+    (g_cls g, g_args g, filter (fun kv => required (fst kv)) (g_kw g),
+     if Bool.eqb (g_trainable g) (tdefault (g_cls g)) then None else Some (g_trainable g)).
   Definition heap := list gst.
   Definition circuit := list nat.               (* queue of object ids; aliases hold the same ids *)
 
@@ -241,7 +246,8 @@ Section CircuitHeap.
     export (set_params h a vals) c = export hfresh c.
   Proof. intros. apply export_current_state_only. intros id Hin. symmetry. auto. Qed.
 
-  Definition gimport (r : rawd) : gst := let '(c, a, k) := r in mkG c a k true.   (* trainable is not exported *)
+  Definition gimport (r : rawd) : gst :=
+    let '(c, a, k, t) := r in mkG c a k (match t with Some b => b | None => tdefault c end).
   Definition import (d : list rawd) : heap * circuit := (map gimport d, seq 0 (length d)).
 
   Lemma filter_idem : forall (k : list (nat * Z)),
@@ -252,7 +258,24 @@ Section CircuitHeap.
   Qed.
 
   Lemma graw_gimport_graw : forall g, graw (gimport (graw g)) = graw g.
-  Proof. intros g. unfold graw, gimport. simpl. rewrite filter_idem. reflexivity. Qed.
+  Proof.
+    intros g. unfold graw, gimport. simpl. rewrite filter_idem.
+    destruct (Bool.eqb (g_trainable g) (tdefault (g_cls g))) eqn:E; simpl.
+    - rewrite Bool.eqb_reflx. reflexivity.
+    - rewrite E. reflexivity.
+  Qed.
+
+  (* the import has the trainable flag of the exported object *)
+  Theorem trainable_roundtrip : forall g, g_trainable (gimport (graw g)) = g_trainable g.
+  Proof.
+    intros g. unfold graw, gimport. simpl.
+    destruct (Bool.eqb (g_trainable g) (tdefault (g_cls g))) eqn:E; simpl; [|reflexivity].
+    apply Bool.eqb_prop in E. symmetry. exact E.
+  Qed.
+
+  (* the exporter before the repair (trainable never exported, import takes the constructor default True) *)
+  Definition graw_old (g : gst) := (g_cls g, g_args g, filter (fun kv => required (fst kv)) (g_kw g)).
+  Definition gimport_old (r : nat * list Z * list (nat * Z)) : gst := let '(c, a, k) := r in mkG c a k true.
 
   Lemma export_import_gen : forall (d : list rawd) k pre,
     length pre = k ->
@@ -288,13 +311,13 @@ Section CircuitHeap.
   Theorem import_objects_distinct : forall d, NoDup (snd (import d)).
   Proof. intros d. simpl. apply seq_NoDup. Qed.
 
-  (* the filed finding: trainable does not survive *)
-  Theorem trainable_roundtrip_refuted : exists g, g_trainable (gimport (graw g)) <> g_trainable g.
+  (* historical (pre-repair exporter): trainable did not survive *)
+  Theorem historical_trainable_roundtrip_refuted : exists g, g_trainable (gimport_old (graw_old g)) <> g_trainable g.
   Proof. exists (mkG 0 [] [] false). simpl. discriminate. Qed.
 End CircuitHeap.
 
 Example export_alias_nonvacuous :
   let h := [mkG 1 [0%Z] [(7%nat, 10%Z)] true; mkG 2 [1%Z] [] false; mkG 1 [1%Z] [(7%nat, 20%Z)] false] in
-  export (fun _ => true) (set_params h [0; 1; 2; 0]%nat [5; 6]%Z) [0; 0; 2]%nat
-  = [Some (1%nat, [0%Z], [(7%nat, 6%Z)]); Some (1%nat, [0%Z], [(7%nat, 6%Z)]); Some (1%nat, [1%Z], [(7%nat, 20%Z)])].
+  export (fun _ => true) (fun _ => true) (set_params h [0; 1; 2; 0]%nat [5; 6]%Z) [0; 0; 2]%nat
+  = [Some (1%nat, [0%Z], [(7%nat, 6%Z)], None); Some (1%nat, [0%Z], [(7%nat, 6%Z)], None); Some (1%nat, [1%Z], [(7%nat, 20%Z)], Some false)].
 Proof. vm_compute. reflexivity. Qed.
